@@ -27,6 +27,7 @@ def fresh_bytecode(tree):
 
 
 FAST = False
+OWN = False      # --own: re-run only the own property's check; the other checks' results are kept from the previous confirmation
 
 
 def recheck(ids):
@@ -50,8 +51,11 @@ def recheck(ids):
             shutil.copy(dest / old["demonstration"], wt / old["demonstration"])
             rc, out = sh(["git", "apply", f"patch_{pid}.diff"], cwd=wt)
             assert rc == 0, out
-            one(sid, wt, [pid] + [p for p in old.get("checks", {}) if p != pid],
-                keep={k: old[k] for k in ("needs_to_manifest", "rebased", "baseline_with_change") if k in old})
+            others = [] if OWN else [p for p in old.get("checks", {}) if p != pid]
+            keep = {k: old[k] for k in ("needs_to_manifest", "rebased", "baseline_with_change") if k in old}
+            if OWN:
+                keep["_old_checks"] = {p: r for p, r in old.get("checks", {}).items() if p != pid}
+            one(sid, wt, [pid] + others, keep=keep)
         finally:
             sh(["git", "-C", "/repo", "worktree", "remove", "--force", str(wt)])
             shutil.rmtree(wt.parent, ignore_errors=True)
@@ -85,6 +89,10 @@ def main():
         if "--fast" in rest:
             FAST = True
             rest.remove("--fast")
+        if "--own" in rest:
+            global OWN
+            OWN = True
+            rest.remove("--own")
         return recheck(rest)
     args = sys.argv[1:]
     suffix = None
@@ -158,6 +166,9 @@ def one(sid, wt, props, keep=None, suffix=None):
             finally:
                 sh(["git", "-C", "/repo", "checkout", "--", "."])
                 fresh_bytecode("/repo/src")
+    oldc = meta.pop("_old_checks", None)
+    if oldc:
+        results = {**results, **{p: {**r, "from_previous_confirmation": True} for p, r in oldc.items()}}
     meta["checks"] = results
     meta["caught_by"] = [p for p, r in results.items() if r["exit"] == 1 and r["violation_line"]]
     (dest / "meta.json").write_text(json.dumps(meta, indent=1) + "\n")
